@@ -304,6 +304,24 @@ def r5(ctx):
     ctx.floor(R, 2)
 
 
+def r8(ctx):
+    R = "C20-R8"
+    ctx.rule(R, "a suspended source is released by its handle and by nothing else: in trigger() the only thing awaited after the report is the "
+                "oneshot receiver whose sender travels with the Triggered handle - no second wake-up source (the channel's closed(), a timer, a "
+                "select!) that would let the source go while the test still holds the handle")
+    tr = ctx.w.bodies.get("turmoil::barriers::trigger")
+    if not tr:
+        if ctx.strict:
+            ctx.bad(R, "anchor-missing:trigger", "", "barriers::trigger not found")
+        return
+    extra = sorted({t["f"] for fb in ctx.w.family(tr.id) for bb, t in fb.calls(re.compile(r"Sender::closed$|UnboundedSender::closed$|::is_closed$|^tokio::time::(sleep|timeout|sleep_until)$|select|^tokio::macros::support::poll_fn$|::poll_fn$"))
+                    if not is_macro_noise(t) or "select" in t["f"] or "poll_fn" in t["f"]})
+    ctx.inst(R, "trigger:released-only-by-the-handle", not extra, tr.span, "the parked source waits for its Triggered handle only" if not extra else
+             f"trigger() waits on something besides the release handle ({', '.join(extra)}): dropping the Barrier (or the other event) resumes a source whose Triggered handle the test "
+             "still holds - the suspension ends before the handle is dropped")
+    ctx.floor(R, 1)
+
+
 def r6(ctx):
     R = "C20-R6"
     ctx.rule(R, "every corrupted read of a host step reaches the barriers: the corruption hook (thread-local turmoil_fs::CURRENT_CORRUPTION, installed by "
@@ -385,3 +403,4 @@ def run(ctx):
     r5(ctx)
     r6(ctx)
     r7(ctx)
+    r8(ctx)
